@@ -10,7 +10,7 @@ def parseItems (s : String) : Option (List BItem) :=
     | 't' => some (.bool true) | 'f' => some (.bool false) | 'o' => some .other | _ => none
 
 def showBools (l : List Bool) : String :=
-  if l.isEmpty then "-" else String.mk (l.map fun b => if b then 't' else 'f')
+  if l.isEmpty then "-" else String.ofList (l.map fun b => if b then 't' else 'f')
 
 def parseOp : String → Option BoolOp
   | "and" => some .and | "or" => some .or | "xor" => some .xor | "implies" => some .implies | _ => none
